@@ -38,11 +38,16 @@ def build(cls, mask, n1, n2):
     return ALL[cls](Ctx(mask, n1, n2))
 
 
+def _lib_obj(o):
+    """an object of a class defined by the library (AST nodes, and helper records such as TableColumn that trees hold)"""
+    return hasattr(o, '__dict__') and not isinstance(o, type) and type(o).__module__.startswith('mindsdb_sql')
+
+
 def reachable(obj, acc=None, depth=0):
-    """ids of mutable objects (nodes, lists, dicts) reachable through vars()"""
+    """ids of mutable objects (nodes, library records, lists, dicts) reachable through vars()"""
     if acc is None:
         acc = {}
-    if isinstance(obj, ASTNode):
+    if isinstance(obj, ASTNode) or _lib_obj(obj):
         if id(obj) in acc:
             return acc
         acc[id(obj)] = obj
@@ -68,10 +73,11 @@ def mutations(root):
     """single-attribute mutations applicable to the object graph under `root` (list of (label, thunk))"""
     out = []
     for o in list(reachable(root).values()):
-        if isinstance(o, ASTNode):
+        if isinstance(o, ASTNode) or _lib_obj(o):
             name = type(o).__name__
-            out.append(('%s.alias=' % name, lambda o=o: setattr(o, 'alias', A.Identifier(parts=['zz']))))
-            out.append(('%s.parentheses^' % name, lambda o=o: setattr(o, 'parentheses', not o.parentheses)))
+            if isinstance(o, ASTNode):
+                out.append(('%s.alias=' % name, lambda o=o: setattr(o, 'alias', A.Identifier(parts=['zz']))))
+                out.append(('%s.parentheses^' % name, lambda o=o: setattr(o, 'parentheses', not o.parentheses)))
             if isinstance(o, A.Identifier):
                 out.append(('Identifier.parts[0]=', lambda o=o: o.parts.__setitem__(0, 'zz')))
                 out.append(('Identifier.parts.append', lambda o=o: o.parts.append('zz')))
@@ -233,3 +239,86 @@ def _plan_concrete(kind, i, j, mask):
     if (p1 == p3) not in (False,) :
         problems.append('different plans: == returned %r' % ((p1 == p3),))
     return problems
+
+
+# ---- parsed-tree family: every statement kind the grammars can build, as the parsers build it ------------------------------------
+def parsed_trees(dialect):
+    """distinct trees obtained by parsing the grammar-derived sentences (production pairs and alternative derivations, see
+    harness/c02u2.py): they carry what real trees carry (TableColumn records, option dicts, raw-query strings, flags)"""
+    from harness import c02u2
+    from mindsdb_sql import parse_sql
+    dv = c02u2.env(dialect)[0]
+    texts = []
+    for i, p in enumerate(dv.prods):
+        for j, cp, tree in dv.pair_trees(p):
+            t_ = c02u2.node_sentence(dialect, tree, c02u2.VOCAB[0])
+            if t_:
+                texts.append(t_)
+    out, seen = [], set()
+    for t_ in texts:
+        try:
+            a = parse_sql(t_, dialect)
+            key = a.to_tree()
+        except Exception:  # noqa
+            continue
+        if key not in seen:
+            seen.add(key)
+            out.append((t_, a))
+    return out
+
+
+def parsed_copy_check(sql, node):
+    """copy()/deepcopy of a parsed tree: equal, prints alike, shares nothing mutable, and no single-attribute mutation of the copy
+    changes the original"""
+    problems = []
+    try:
+        s0, t0 = node.to_string(), node.to_tree()
+    except Exception:  # noqa
+        return problems          # unprintable trees are C01's findings
+    for deep in (False, True):
+        n_mut = len(mutations(_copy.deepcopy(node)))
+        for mut in range(-1, n_mut):
+            cp = _copy.deepcopy(node) if deep else node.copy()
+            if mut == -1:
+                if not (cp == node):
+                    problems.append('copy != original')
+                try:
+                    if cp.to_string() != s0 or cp.to_tree() != t0:
+                        problems.append('copy prints differently')
+                except Exception as e:  # noqa
+                    problems.append('copy cannot be printed: %s' % type(e).__name__)
+                shared = set(reachable(cp)) & set(reachable(node))
+                if shared:
+                    problems.append('copy shares %d mutable object(s) with the original: %s' %
+                                    (len(shared), sorted(type(reachable(node)[i]).__name__ for i in shared)[:3]))
+                continue
+            muts = mutations(cp)
+            if mut >= len(muts):
+                continue
+            label, thunk = muts[mut]
+            try:
+                thunk()
+            except Exception:  # noqa
+                continue
+            try:
+                changed = node.to_string() != s0 or node.to_tree() != t0
+            except Exception:  # noqa
+                changed = True
+            if changed:
+                problems.append('mutating the copy (%s) changed the original' % label)
+        if problems:
+            break
+    return ['%s (%s)' % (p, 'deepcopy' if deep else 'copy()') for p in problems[:3]]
+
+
+def parsed_shard(a):
+    dialect, k, n = a
+    trees = parsed_trees(dialect)
+    bad, cnt = [], 0
+    for idx in range(k, len(trees), n):
+        sql, node = trees[idx]
+        pr = parsed_copy_check(sql, node)
+        cnt += 1
+        if pr:
+            bad.append((sql, type(node).__name__, pr))
+    return dialect, cnt, len(trees), bad
